@@ -61,7 +61,10 @@ for (size_t j = 0; (j < n_) && issymmetric_; j++)
   for (size_t i = 0; (i < n_) && issymmetric_; i++)
     issymmetric_ = (A(i, j) == A(j, i));
 ```
-`List.all` stops at the first `false`, like the two loop guards. -/
+`List.all` stops at the first `false`, like the two loop guards.
+`n_` is the number of *columns*; the constructor does not check that `A` is square (for fewer rows
+than columns the reads `A(i, j)` would be out of range). The property quantifies over square
+matrices and the harness refuses anything else, so the model takes one size `n`. -/
 def isSymmetric (n : Nat) (A : FMat α) : Bool :=
   (List.range n).all fun j => (List.range n).all fun i => eqb (A i j) (A j i)
 
